@@ -343,6 +343,9 @@ def kw_from_json(d):
 
 
 def replay(rep):
+    if rep['replay'].get('protocol') == 'values_only':
+        from props import _purity
+        return _purity.replay_protocol(rep['replay'])
     r = rep['replay']; fn = r.get('function')
     if fn == 'create_window':
         return not check_window(r['name'], r['N'], kw_from_json(r.get('kwargs', {})))
@@ -692,3 +695,7 @@ def run(ctx):
             ctx.violation('factory_name/%s/unknown' % fn.__name__, 'an unknown window name was accepted', {'function': 'factory', 'name': 'hann', 'N': 16})
         except (AssertionError, ValueError):
             pass
+
+    # ---------------- results depend on the VALUES given only: call protocol (repeat, aliasing, buffer reuse, memory layout, integer / single-precision dtypes)
+    from props import _purity
+    _purity.run_protocol(ctx, ['create_window_kaiser', 'create_window_hann'])
